@@ -34,6 +34,16 @@ Theorem C08_filter_sound_nonvacuous :
 Proof. exact ex_filter_nonvacuous. Qed.
 Print Assumptions C08_filter_sound_nonvacuous.
 
+(** [Targets] values parsed from a string may carry field-name directives ([target[{field}]=level]); they are
+    inside [C08_filter_sound] ([FTargets] directives are (target, field names, level)): "a=warn,a[{x}]=trace" *)
+Theorem C08_targets_field_directives_nonvacuous :
+  LeafOK ex_targets_fields /\ f_hint ex_targets_fields = Some (Some TRACE) /\
+  f_int ex_targets_fields (pool_meta 49) = always /\ f_acc ex_targets_fields (pool_meta 49) cx0 = true /\
+  f_int ex_targets_fields (pool_meta 48) = never /\ f_acc ex_targets_fields (pool_meta 48) cx0 = false /\
+  f_int ex_targets_fields (pool_meta 51) = always /\ f_acc ex_targets_fields (pool_meta 51) cx0 = true.
+Proof. exact ex_targets_fields_nonvacuous. Qed.
+Print Assumptions C08_targets_field_directives_nonvacuous.
+
 (** the context the protocol produces (register every callsite, then enter spans) satisfies [Registered] *)
 Theorem C08_real_ctx_registered : forall f envs n spans m,
   (forall id ds, In (id, ds) (f_envs f) -> env_lookup envs id = env_build ds) ->
@@ -261,6 +271,6 @@ Theorem C08_source_shapes :
   gen_summary_unrecognised = [] /\ gen_inner_is_registry_from_inner_value = true /\
   gen_vec_interest_is_conjunction = true /\ gen_vec_enabled_is_all = true /\ gen_vec_hint_is_max_from_off = true /\
   gen_vec_markers = true /\ gen_layered_markers = true /\ gen_option_none_summaries = true /\ gen_filtered_summaries = true /\
-  gen_env_hint = true /\ gen_directive_add_max_exact = true.
+  gen_targets_summaries = true /\ gen_env_hint = true /\ gen_directive_add_max_exact = true.
 Proof. exact (conj source_recognised (conj source_inner_is_registry source_flags)). Qed.
 Print Assumptions C08_source_shapes.
